@@ -1,6 +1,7 @@
 import Dhcp.Driver.Sx
 import Dhcp.Driver.V4
 import Dhcp.V6.Codec
+import Dhcp.V6.Domain
 /- Line-protocol operations of the DHCPv6 codec. -/
 namespace Dhcp.Driver
 open Dhcp Dhcp.V6
@@ -167,6 +168,16 @@ def stepV6 (op : String) (args : List String) : Option String :=
   | "v6enc", [t] => do
     let m ← ofSxMsg (← Sx.parse t)
     pure ("ok " ++ hex (encMsg m))
+  | "v6trip", [t] => do
+    -- FromBytes(ToBytes(m)), and whether it is the normal form of m (fresh
+    -- label sets replaced by their decoded form: C02_roundtrip_fresh)
+    let m ← ofSxMsg (← Sx.parse t)
+    pure (match dec6 (encMsg m) with
+      | .ok m' =>
+        let s := (sxMsg m').show
+        "ok " ++ s ++ " norm=" ++ (if s == (sxMsg (normMsg m)).show then "1" else "0")
+      | .err => "err"
+      | .panic => "panic")
   | "v6optenc", [t] => do
     let o ← ofSxOpt (← Sx.parse t)
     pure ("ok " ++ toString o.code ++ " " ++ hex (encOpt o))
